@@ -3,6 +3,34 @@
 // theorems also say that set* overwrites every slot.
 #define IN(Ty, n) auto n = c.template in<Ty<T>> (#n)
 
+// (frame builders come FIRST: the emitter's node numbers are global, so with this order an edit to a Matrix22/33/44 member that no frame
+//  builder uses leaves the text of Gen/C09Frame.lean — and the slow tree theorems about it — untouched)
+// ---------------------------------------------------------------- frame builders (Vec3::length opaque)
+// order and modules: nextFrame (Gen/C09Next) and Quat::setRotation (Gen/C09Quat) first and in their own modules, so that an edit to
+// another frame builder does not renumber them (their tree theorems take minutes to re-elaborate)
+// nextFrame calls `acosf` whatever T is: the model's `acos` parameter stands for `x ↦ T(acosf(float(x)))`, so the
+// bitwise translator validation is run at float only (at double the tree's ACOS node would be evaluated by std::acos(double)).
+// It also normalises its tangent arguments in place (non-const references): they are returned as 2nd and 3rd result.
+#define EXTRACT_FLOATONLY(module, ident, leanname, ...)                                                \
+    struct X_##ident { template <class T> static void run (symns::Ctx<T>& c) __VA_ARGS__ };            \
+    static int reg_##ident = (symns::entries ().push_back (symns::Entry{module, leanname, symns::Opts (), &X_##ident::run<symns::Sym>, \
+        {{"float", symns::makeTV<float> (&X_##ident::run<float>)}}, symns::makeRun (&X_##ident::run<double>)}), 0);
+EXTRACT_FLOATONLY ("C09Next", fr_nextFrame, "Frame.nextFrame",
+                   { IN (Matrix44, Mi); IN (Vec3, pi); IN (Vec3, pj); IN (Vec3, ti); IN (Vec3, tj); Matrix44<T> r = nextFrame (Mi, pi, pj, ti, tj); c.out (r); c.out (ti); c.out (tj); })
+// rotationMatrix(from,to) = Quat::setRotation(from,to).toMatrix44(): the two halves are extracted separately (inlined, the
+// tree has ~850 shared sub-terms and Lean's elaborator runs out of recursion depth); sym_c09up.cpp extracts rotationMatrix itself
+// with Quat::setRotation as an opaque call of `Frame.quatSetRotation`.
+EXTRACT ("C09Quat", fr_quatSetRotation, "Frame.quatSetRotation", { IN (Quat, q); IN (Vec3, fromDir); IN (Vec3, toDir); q.setRotation (fromDir, toDir); c.out (q); })
+EXTRACT ("C09Quat", fr_quatToMatrix44, "Frame.quatToMatrix44", { IN (Quat, q); c.out (q.toMatrix44 ()); })
+EXTRACT ("C09Frame", fr_alignZ, "Frame.alignZAxisWithTargetDir",
+         { IN (Vec3, targetDir); IN (Vec3, upDir); Matrix44<T> result (UNINITIALIZED); alignZAxisWithTargetDir (result, targetDir, upDir); c.out (result); })
+// rotationMatrixWithUpDir: extracted by sym_c09up.cpp (module C09Up) with alignZAxisWithTargetDir opaque (inlined: 1201 paths)
+EXTRACT ("C09Frame", fr_computeLocalFrame, "Frame.computeLocalFrame", { IN (Vec3, p); IN (Vec3, xDir); IN (Vec3, normal); c.out (computeLocalFrame (p, xDir, normal)); })
+EXTRACT ("C09Frame", fr_addOffset, "Frame.addOffset",
+         { IN (Matrix44, inMat); IN (Vec3, tOffset); IN (Vec3, rOffset); IN (Vec3, sOffset); IN (Matrix44, ref); c.out (addOffset (inMat, tOffset, rOffset, sOffset, ref)); })
+EXTRACT ("C09Frame", fr_firstFrame, "Frame.firstFrame", { IN (Vec3, pi); IN (Vec3, pj); IN (Vec3, pk); c.out (firstFrame (pi, pj, pk)); })
+EXTRACT ("C09Frame", fr_lastFrame, "Frame.lastFrame", { IN (Matrix44, Mi); IN (Vec3, pi); IN (Vec3, pj); c.out (lastFrame (Mi, pi, pj)); })
+
 // ---------------------------------------------------------------- Matrix44
 EXTRACT ("C09Mat", m44_setEuler, "M44.setEulerAngles", { IN (Matrix44, m); IN (Vec3, r); m.setEulerAngles (r); c.out (m); })
 EXTRACT ("C09Mat", m44_setAxisAngle, "M44.setAxisAngle", { IN (Matrix44, m); IN (Vec3, axis); T angle = c.inS ("angle"); m.setAxisAngle (axis, angle); c.out (m); })
@@ -41,26 +69,3 @@ EXTRACT ("C09Mat", m22_setScaleS, "M22.setScaleS", { IN (Matrix22, m); T s = c.i
 EXTRACT ("C09Mat", m22_setScaleV, "M22.setScaleV", { IN (Matrix22, m); IN (Vec2, s); m.setScale (s); c.out (m); })
 EXTRACT ("C09Mat", m22_scale, "M22.scale", { IN (Matrix22, m); IN (Vec2, s); m.scale (s); c.out (m); })
 
-// ---------------------------------------------------------------- frame builders (Vec3::length opaque)
-EXTRACT ("C09Frame", fr_alignZ, "Frame.alignZAxisWithTargetDir",
-         { IN (Vec3, targetDir); IN (Vec3, upDir); Matrix44<T> result (UNINITIALIZED); alignZAxisWithTargetDir (result, targetDir, upDir); c.out (result); })
-// rotationMatrix(from,to) = Quat::setRotation(from,to).toMatrix44(): the two halves are extracted separately (inlined, the 79-path
-// tree has ~850 shared sub-terms and Lean's elaborator runs out of recursion depth); sym_c09up.cpp extracts rotationMatrix itself
-// with Quat::setRotation as an opaque call of `Frame.quatSetRotation`.
-EXTRACT ("C09Frame", fr_quatSetRotation, "Frame.quatSetRotation", { IN (Quat, q); IN (Vec3, fromDir); IN (Vec3, toDir); q.setRotation (fromDir, toDir); c.out (q); })
-EXTRACT ("C09Frame", fr_quatToMatrix44, "Frame.quatToMatrix44", { IN (Quat, q); c.out (q.toMatrix44 ()); })
-// rotationMatrixWithUpDir: extracted by sym_c09up.cpp (module C09Up) with alignZAxisWithTargetDir opaque (inlined: 1201 paths)
-EXTRACT ("C09Frame", fr_computeLocalFrame, "Frame.computeLocalFrame", { IN (Vec3, p); IN (Vec3, xDir); IN (Vec3, normal); c.out (computeLocalFrame (p, xDir, normal)); })
-EXTRACT ("C09Frame", fr_addOffset, "Frame.addOffset",
-         { IN (Matrix44, inMat); IN (Vec3, tOffset); IN (Vec3, rOffset); IN (Vec3, sOffset); IN (Matrix44, ref); c.out (addOffset (inMat, tOffset, rOffset, sOffset, ref)); })
-EXTRACT ("C09Frame", fr_firstFrame, "Frame.firstFrame", { IN (Vec3, pi); IN (Vec3, pj); IN (Vec3, pk); c.out (firstFrame (pi, pj, pk)); })
-EXTRACT ("C09Frame", fr_lastFrame, "Frame.lastFrame", { IN (Matrix44, Mi); IN (Vec3, pi); IN (Vec3, pj); c.out (lastFrame (Mi, pi, pj)); })
-// nextFrame calls `acosf` whatever T is: the model's `acos` parameter stands for `x ↦ T(acosf(float(x)))`, so the
-// bitwise translator validation is run at float only (at double the tree's ACOS node would be evaluated by std::acos(double)).
-// It also normalises its tangent arguments in place (non-const references): they are returned as 2nd and 3rd result.
-#define EXTRACT_FLOATONLY(module, ident, leanname, ...)                                                \
-    struct X_##ident { template <class T> static void run (symns::Ctx<T>& c) __VA_ARGS__ };            \
-    static int reg_##ident = (symns::entries ().push_back (symns::Entry{module, leanname, symns::Opts (), &X_##ident::run<symns::Sym>, \
-        {{"float", symns::makeTV<float> (&X_##ident::run<float>)}}, symns::makeRun (&X_##ident::run<double>)}), 0);
-EXTRACT_FLOATONLY ("C09Frame", fr_nextFrame, "Frame.nextFrame",
-                   { IN (Matrix44, Mi); IN (Vec3, pi); IN (Vec3, pj); IN (Vec3, ti); IN (Vec3, tj); Matrix44<T> r = nextFrame (Mi, pi, pj, ti, tj); c.out (r); c.out (ti); c.out (tj); })
